@@ -274,48 +274,56 @@ def same_source_two_roles(stmts) -> bool:
     contains input i1, plus i1 again as the scalar operand or as the condition)."""
     decl = {s[2]: s[3] for s in stmts if s[0] == "decl"}
 
-    def sources(e, depth=0) -> set:
+    def sources(e, depth=0):
+        """(names of the physical sources behind e, whether e joins them by wires / is a bundle)"""
         t = e[0]
         if t == "var":
             d = decl.get(e[1])
             if d is not None and d[0] in ("blit", "var") and depth < 6:
-                return sources(d, depth + 1)
+                s_, m_ = sources(d, depth + 1)
+                return s_, m_
             if d is not None and d[0] == "bin" and d[1] == "+" and depth < 6:
                 # same-type sums of simple sources may be merged by wires
-                return sources(d[2], depth + 1) | sources(d[3], depth + 1) | {e[1]}
-            return {e[1]}
+                a_, _ma = sources(d[2], depth + 1)
+                b_, _mb = sources(d[3], depth + 1)
+                return a_ | b_ | {e[1]}, len(a_ | b_) >= 2
+            return {e[1]}, False
         if t == "blit":
             out: set = set()
             for x in e[1]:
-                out |= sources(x, depth + 1) if x[0] in ("var", "blit") else set()
-            return out
+                if x[0] in ("var", "blit"):
+                    out |= sources(x, depth + 1)[0]
+            return out, True
         if t == "bin" and e[1] == "+" and depth < 6:
-            # a sum of simple same-type sources may be a wire merge
-            return sources(e[2], depth + 1) | sources(e[3], depth + 1)
-        return set()
+            a_, _ma = sources(e[2], depth + 1)
+            b_, _mb = sources(e[3], depth + 1)
+            return a_ | b_, len(a_ | b_) >= 2
+        return set(), False
+
+    def clash(x, y) -> bool:
+        (a, ma), (b, mb) = sources(x), sources(y)
+        return bool(a & b) and (ma or mb)
 
     def walk(e) -> bool:
         if not isinstance(e, list) or not e:
             return False
         t = e[0]
         if t == "bin":
-            a, b = sources(e[2]), sources(e[3])
-            if a & b:
+            if clash(e[2], e[3]):
                 return True
             return walk(e[2]) or walk(e[3])
         if t == "sel":
             c, v = e[1], e[2]
-            cs: set = set()
             if c[0] == "bin":
-                cs = sources(c[2]) | sources(c[3])
-                if c[1] in lang.CMP_OPS and sources(c[2]) & sources(c[3]):
+                if c[1] in lang.CMP_OPS and clash(c[2], c[3]):
                     return True
-            elif c[0] == "var":
-                cs = sources(c)
-            # filter `(b CMP x) : b` legitimately names the bundle twice
-            if not (c[0] == "bin" and c[2] == v) and cs & sources(v):
-                return True
-            if c[0] == "bin" and c[2] == v and sources(c[3]) & sources(v):
+                # filter `(b CMP x) : b` legitimately names the bundle twice
+                if c[2] == v:
+                    if clash(c[3], v):
+                        return True
+                elif clash(c[2], v) or clash(c[3], v):
+                    return True
+            elif c[0] == "var" and clash(c, v):
                 return True
             return walk(c) or walk(v)
         if t in ("any", "all", "neg", "not", "proj", "projt", "bsel"):
@@ -371,7 +379,8 @@ def same_source_two_roles(stmts) -> bool:
             for n in names:
                 by_type.setdefault(types[n], []).append(n)
             for g in by_type.values():
-                if len(g) >= 2 and any(refs.get(n, 0) > 1 for n in g):
+                # `a + a` is not a wire merge (the compiler keeps a combinator for it)
+                if len(set(g)) >= 2 and len(set(g)) == len(g) and any(refs.get(n, 0) > 1 for n in g):
                     return True
             return any(merges(x) for x in acc if x[0] != "var")
         return any(merges(x) for x in e[1:] if isinstance(x, list) and x and isinstance(x[0], str)) or \
